@@ -21,7 +21,7 @@ L0 == [obs |-> 0, rcache |-> 0, bwRecv |-> 0, bwSend |-> 0]
 Kinds == {"plainOK", "plainSepCon", "plainBadToken", "plainCtxWrite", "plainCancel", "plainExpire", "plainRst", "dupToken",
           "bwUpOK", "bwUpCancel", "bwUpRefused", "bwDownOK", "bwDownAbandon",
           "obsOK", "obsCancel", "obsCancelRefused", "obsCancelGiveUp", "obsFail", "obsSilentCancel", "obsAckedCancel", "obsNotifyEtag",
-          "pingOK", "pingCancel", "pingForget", "pingWriteFail", "oneWay",
+          "pingOK", "pingCancel", "pingAsyncOK", "pingForget", "pingWriteFail", "oneWay",
           "srvReq", "srvReqNon", "srvReqNoResp", "srvReqHijack", "srvBwUpAbandon", "srvBwDownAbandon", "srvBwDownRetry", "srvBwDownBadCont",
           "tickEarly", "tickBw", "tickLate"}
 Enabled(s, k) == CASE k = "obsOK" -> s.obs < MaxObs
